@@ -190,7 +190,9 @@ class SMCAlgorithm(Generic[R], Algorithm[R]):
         algorithm = ChangeTarget(self, target)
         key, sub_key = jrandom.split(key)
         particle_collection = algorithm.run_csmc(key, v)
-        particle = particle_collection.sample_particle(sub_key)
+        # The density estimate is that of the retained particle (`run_csmc` puts it
+        # last), not of a freshly resampled one.
+        particle = particle_collection.get_particle(-1)
         log_density_estimate = (
             particle.get_score()
             - particle_collection.get_log_marginal_likelihood_estimate()
